@@ -23,8 +23,8 @@ pub struct Case {
     pub s2c: Partition,
     /// delivery order: true = deliver the next client->server piece, false = server->client
     pub schedule: Vec<bool>,
-    pub trailing_c: u16,
-    pub trailing_s: u16,
+    pub trailing_c: u32,
+    pub trailing_s: u32,
     pub fill: u64,
     /// None = both sides are the library; Some(role) = that role is played by the harness's
     /// original-handshake (digest-less) peer
@@ -132,7 +132,7 @@ pub fn eval(c: &Case) -> Verdict {
         calls += 1;
         sha::prng_fill(fill.wrapping_add(calls.wrapping_mul(0x1000193)), buf);
     }));
-    let mk = |role: Role, trailing: u16| -> End {
+    let mk = |role: Role, trailing: u32| -> End {
         let side = if c.original_peer == Some(role) {
             let mut p1 = vec![0u8; PACKET];
             sha::prng_fill(fill ^ 0x5EED ^ (role as u64), &mut p1);
@@ -277,8 +277,8 @@ fn case_strategy(original: bool) -> BoxedStrategy<Case> {
         hs_partition(),
         hs_partition(),
         proptest::collection::vec(any::<bool>(), 0..40),
-        prop_oneof![1 => Just(0u16), 3 => 1u16..300],
-        prop_oneof![1 => Just(0u16), 3 => 1u16..300],
+        trailing_len(),
+        trailing_len(),
         any::<u64>(),
         orig,
     )
@@ -286,10 +286,24 @@ fn case_strategy(original: bool) -> BoxedStrategy<Case> {
         .boxed()
 }
 
+/// Application data that follows packet 2 in the same stream: mostly short, but also several
+/// kilobytes to 200 KB (a client that pipelines connect, createStream, publish and the first
+/// media behind its handshake), with lengths around multiples of the 1536-byte packet size.
+fn trailing_len() -> BoxedStrategy<u32> {
+    prop_oneof![
+        2 => Just(0u32),
+        6 => 1u32..300,
+        2 => 300u32..5000,
+        2 => gen::pick(&[1535u32, 1536, 1537, 3072, 3073, 3074, 4607, 4608, 4609, 6143, 6144, 6145, 8192, 16_384, 65_535, 65_536, 70_000, 200_000]),
+        1 => 5000u32..100_000,
+    ]
+    .boxed()
+}
+
 fn single_cuts(_ctx: &Ctx) -> Vec<Case> {
     // exhaustive single cut positions 0..=3073+trailing, for each direction, against both peers
     let mut v = Vec::new();
-    let trailing = 40u16;
+    let trailing = 40u32;
     for orig in [None, Some(Role::Client), Some(Role::Server)] {
         for pos in 0..=(TOTAL as u32 + trailing as u32) {
             if orig.is_some() && pos % 3 != 0 {
@@ -318,7 +332,7 @@ pub fn spec() -> PropSpec {
     PropSpec {
         id: "C05",
         level: "exploration",
-        rule: "exchanges between a client and a server handshake (both the library, or one side replaced by the harness's digest-less original-handshake peer): who sends first, one partition per direction (whole, byte-by-byte, fixed pieces, cuts at 1/2/1536/1537/1538/3072/3073/3074, random cuts), a generated delivery interleaving, 0..300 bytes of trailing application data per direction appended right after packet 2, packet content from the seeded fill hook; plus the exhaustive enumeration of every single cut position 0..=3113 per direction. Non-trivial = a cut strictly inside a handshake packet and non-empty trailing data; distinct = distinct case",
+        rule: "exchanges between a client and a server handshake (both the library, or one side replaced by the harness's digest-less original-handshake peer): who sends first, one partition per direction (whole, byte-by-byte, fixed pieces, cuts at 1/2/1536/1537/1538/3072/3073/3074, random cuts), a generated delivery interleaving, 0..200000 bytes of trailing application data per direction (mostly < 300, also around multiples of 1536 and up to 200 KB) appended right after packet 2, packet content from the seeded fill hook; plus the exhaustive enumeration of every single cut position 0..=3113 per direction. Non-trivial = a cut strictly inside a handshake packet and non-empty trailing data; distinct = distinct case",
         assumptions: vec![
             "after Completed the driver stops calling process_bytes (documented: HandshakeAlreadyCompleted); the bytes not yet passed in count as returned",
             "a side can only be given bytes its peer has already produced: when a partition piece reaches beyond what exists, the available part is delivered",
